@@ -3,20 +3,23 @@
 (* of a class hierarchy), symbolic construction, rule inference, registry   *)
 (* clearing and no-domain queries at every level.                           *)
 EXTENDS RegistryOps, Json
-CONSTANTS MaxLen
+CONSTANTS MaxLen,
+          Hier       \* "dataclass": Base <- Mid <- Leaf;  "ownnew": Own (hand-written __new__) <- OwnSub
+Classes == IF Hier = "dataclass" THEN {"Base", "Mid", "Leaf"} ELSE {"Own", "OwnSub"}
+Root == IF Hier = "dataclass" THEN "Base" ELSE "Own"
 VARIABLES s, hist
 vars == <<s, hist>>
-Events == [op : {"construct"}, cls : {"Base", "Mid", "Leaf"}, style : {"pos", "kw", "default"}, n : {0}, T : {"-"}]
-          \cup [op : {"symconstruct"}, cls : {"Base", "Mid", "Leaf"}, style : {"kw", "default"}, n : {0}, T : {"-"}]
+Events == [op : {"construct"}, cls : Classes, style : {"pos", "kw", "default"}, n : {0}, T : {"-"}]
+          \cup [op : {"symconstruct"}, cls : Classes, style : {"kw", "default"}, n : {0}, T : {"-"}]
           \cup [op : {"infer"}, cls : {"P"}, style : {"-"}, n : {0, 1, 2}, T : {"-"}]
           \cup [op : {"clear"}, cls : {"-"}, style : {"-"}, n : {0}, T : {"-"}]
           \* style "named": let(T, name = "v"); "an": an(T) / an(has_type = T) shorthand
-          \cup [op : {"query"}, cls : {"-"}, style : {"-", "named", "an"}, n : {0}, T : {"Base", "Mid", "Leaf", "P"}]
-          \cup [op : {"declare"}, cls : {"-"}, style : {"-"}, n : {0}, T : {"Base", "Mid"}]
+          \cup [op : {"query"}, cls : {"-"}, style : {"-", "named", "an"}, n : {0}, T : Classes \cup {"P"}]
+          \cup [op : {"declare"}, cls : {"-"}, style : {"-"}, n : {0}, T : IF Hier = "dataclass" THEN {"Base", "Mid"} ELSE Classes]
           \cup [op : {"evalvar"}, cls : {"-"}, style : {"-"}, n : 1..2, T : {"-"}]
 Init == s = InitS /\ hist = <<>>
 \* rule inference takes its n bindings from n registered instances
-Enabled(ev) == /\ (ev.op = "infer" => ev.n <= Cardinality(Expected("Base", s)))
+Enabled(ev) == /\ (ev.op = "infer" => ev.n <= Cardinality(Expected(Root, s)))
                /\ (ev.op = "declare" => Len(s.decl) < 2)
                \* a declared variable is evaluated once (re-evaluating one variable object after the registry grew is
                \* outside C14: its domain is memoised)
@@ -28,7 +31,9 @@ Bound == Len(hist) <= MaxLen
 View == s
 \* the registry only grows between clearings, and indices are never reused
 IndicesUnique == \A i, j \in 1..Len(s.reg) : i # j => s.reg[i].idx # s.reg[j].idx
-SubtypeMonotone == Expected("Leaf", s) \subseteq Expected("Mid", s) /\ Expected("Mid", s) \subseteq Expected("Base", s)
+SubtypeMonotone == IF Hier = "dataclass"
+                   THEN Expected("Leaf", s) \subseteq Expected("Mid", s) /\ Expected("Mid", s) \subseteq Expected("Base", s)
+                   ELSE Expected("OwnSub", s) \subseteq Expected("Own", s)
 SymbolicIsInert == [][hist' # hist /\ hist'[Len(hist')].op = "symconstruct" => s' = s]_vars
 \* export histories that end with a query (the observation that is judged)
 Export == (Len(hist) = MaxLen /\ hist[MaxLen].op \in {"query", "evalvar"}) => PrintT(<<"BEH", ToJson(hist)>>)
